@@ -195,6 +195,10 @@ func cmdCheck(args []string) int {
 		if *tier == "thorough" && jd.Tier == "quick" {
 			continue
 		}
+		if *tier == "thorough" && os.Getenv("VERIF_THOROUGH_ONLY") != "" && jd.Tier != "thorough" {
+			// development aid: only the jobs the thorough tier adds to the quick one
+			continue
+		}
 		if *only != "" && !strings.Contains(jd.Harness, *only) {
 			continue
 		}
